@@ -27,6 +27,20 @@ SIZES = {   # tier -> (mbt walks, mbt depth bonus, random histories, random dept
 }
 
 
+class LibCrash(Exception):
+    """The harness process was killed by a panic / fatal error (stack overflow ...) inside library code: real-code behaviour."""
+    def __init__(self, fn, out, stage):
+        super().__init__(fn)
+        self.fn, self.out, self.stage = fn, out, stage
+
+
+def crashed(out, stage):
+    import tables
+    fn = tables.lib_crash(out)
+    if fn:
+        raise LibCrash(fn, out[-6000:], stage)
+
+
 def parse_behaviours(out):
     behs, seen = [], set()
     for line in out.splitlines():
@@ -84,11 +98,13 @@ def op_pipeline(pid, tier, seed, fam, wd, focus=None):
     binp = go_build(wd)
     rc, out = run([binp, "op-replay", "-world", "world.json", "-in", "behaviours.ndjson", "-out", "t1.ndjson", "-raw", "r1.ndjson"], wd)
     if rc != 0:
+        crashed(out, "op-replay")
         raise Inconclusive("op-replay failed:\n" + out[-3000:])
     res["divergences"] = [l for l in out.splitlines() if l.startswith("DIVERGENCE")]
     rc, out = run([binp, "op-random", "-world", "world.json", "-out", "t2.ndjson", "-raw", "r2.ndjson", "-n", str(sz["rand_n"]),
                    "-depth", str(sz["rand_depth"]), "-seed", str(seed), "-focus", focus or fam], wd)
     if rc != 0:
+        crashed(out, "op-random")
         raise Inconclusive("op-random failed:\n" + out[-3000:])
     with open(os.path.join(wd, "trace.ndjson"), "w") as t, open(os.path.join(wd, "raw.ndjson"), "w") as r:
         n1 = 0
@@ -146,7 +162,20 @@ WALKS = dict(code=300, refresh=300, tokenuse=150, device=300, exchange=150, clie
 
 def op_part(pid, tier, seed, wd, spec):
     """Runs the OP-family pipeline for `spec` (an entry of FAMILY). Returns dict(new, known, coverage, assumptions)."""
-    res, viols = op_pipeline(pid, tier, seed, spec["fam"], wd, focus=spec.get("focus"))
+    try:
+        res, viols = op_pipeline(pid, tier, seed, spec["fam"], wd, focus=spec.get("focus"))
+    except LibCrash as e:
+        if not any(p.startswith("C09") for p in spec["prefixes"]):
+            raise Inconclusive(f"{e.stage}: the process under test was killed by a panic / fatal error in {e.fn}; only C09 judges panics:\n" + e.out[-2500:])
+        with open(os.path.join(wd, "crash.txt"), "w") as f:
+            f.write(e.out)
+        sig = f"C09.nopanic:processCrash:{e.fn}"
+        new, known = report(pid, [dict(rule="C09.nopanic:processCrash", fn=e.fn, stage=e.stage)], lambda v: sig,
+                            lambda v: dict(rule=v["rule"], crash_in=v["fn"], stage=v["stage"], output_tail=e.out[-800:]),
+                            wd, ["crash.txt", "behaviours.ndjson", "world.json"], seed, tier)
+        log(f"[{pid}] {e.stage}: the process serving the histories was killed by a panic / fatal error in {e.fn} (library code; no handler can recover it)")
+        return dict(new=new, known=known, coverage=dict(states=0, transitions=0, traces_validated_against_impl=0, samples=[dict(crash_in=e.fn)], evaluations=1,
+                                                         distinct_nontrivial=1, rule="process crash while serving histories", exhaustive=False), assumptions=[])
     for c, r in json.load(open(os.path.join(wd, "world.json")))["clients"].items():
         WORLD_AUTH[c], WORLD_KEY[c] = r["auth"], r.get("hasKey") and r["auth"] != "pkjwt"
     trace = read_ndjson(os.path.join(wd, "trace.ndjson"))
